@@ -561,21 +561,148 @@ def grow_rule(run, f, rid_pair, rid_check, rid_value):
 
 
 # ------------------------------------------------------------------ C24
+def _type_params(body):
+    """Names of the type parameters of the impl a body belongs to (`Coroutine<'c, Param, Yield, Return>::f` -> Param, Yield, Return)."""
+    import re
+    m = re.search(r"<([^<>]*)>", body.path)
+    return [x.strip() for x in (m.group(1).split(",") if m else []) if x.strip() and not x.strip().startswith("'")]
+
+
+def _type_independent(run, rid, f, h):
+    """The signal disposition is process-wide and set once: the installed function is ONE instance of the generic handler
+    and runs for faults of coroutines of every type.  So the handler itself may touch the current coroutine only in ways
+    that do not depend on the type parameters: take its address and read the `trap` slot.  A call of a method of the
+    coroutine type, or a read of any other field, is done with the layout of the wrong instance."""
+    import re
+    tps = _type_params(h)
+    pat = re.compile(r"\b(%s)\b" % "|".join(map(re.escape, tps))) if tps else None
+    PURE = (CO + "::current", "std::ptr::from_ref", "*const T::cast", "std::ptr::from_mut", "*mut T::cast")
+    bad = []
+    for body in [h] + list(f.closures_of(h)):
+        for (x, t) in body.calls():
+            full = t.get("callee_full") or ""
+            if pat and pat.search(full) and norm(t.get("callee") or "") not in PURE:
+                bad.append("calls %s (line %s)" % (norm(t.get("callee") or ""), t.get("line")))
+        for blk in body.blocks:
+            for s_ in blk["stmts"]:
+                if s_["k"] != "assign":
+                    continue
+                places = [s_["lhs"]] + [o["p"] for o in ([s_["rhs"].get("a")] if isinstance(s_["rhs"].get("a"), dict) else []) + list(s_["rhs"].get("ops") or []) if isinstance(o, dict) and o.get("k") in ("copy", "move")] + ([s_["rhs"]["p"]] if isinstance(s_["rhs"].get("p"), dict) else [])
+                for pl in places:
+                    for e in pl.get("proj", []):
+                        if isinstance(e, dict) and "f" in e and norm(e.get("of") or "") == CO and e["f"] != "trap":
+                            bad.append("reads field `%s` (line %s)" % (e["f"], s_.get("line")))
+    if not tps:
+        run.ok(rid, CO + "::trap_handler/any-coroutine-type", "the handler is not generic")
+    elif bad:
+        run.fail(rid, CO + "::trap_handler/any-coroutine-type", h.loc(), "the trap handler is installed once per process as the instance of the first coroutine type resumed, yet it %s: for a fault in a coroutine of another type this uses the wrong layout and the wrong Result type (the fault is not reported as an error)" % "; ".join(sorted(set(bad))[:4]))
+    else:
+        run.ok(rid, CO + "::trap_handler/any-coroutine-type", {"type_params": tps, "touches": "address and `trap` slot only"})
+
+
+def _slot_part(run, rid, f, h, hdu, slot):
+    """The per-type part behind the `trap` slot: the function every constructor of the coroutine stores there.  The slot is
+    read through a reference of possibly another instance of the type, so its offset must not depend on the type
+    parameters: #[repr(C)] and only parameter-free fields in front of it; nothing but the constructor writes it."""
+    import re
+    key = CO + "::trap_handler/trap-slot"
+    adt = f.nadts.get(CO) or {}
+    tps = _type_params(h)
+    why = []
+    flds = (adt.get("variants") or [{}])[0].get("fields") or []
+    names = [x["name"] for x in flds]
+    if "trap" not in names:
+        why.append("the coroutine has no `trap` field")
+    else:
+        if adt.get("repr_c") is not True:
+            why.append("the coroutine type is not #[repr(C)]: the offset of `trap` may differ between instances")
+        pat = re.compile(r"\b(%s)\b" % "|".join(map(re.escape, tps))) if tps else None
+        dep = [x["name"] for x in flds[:names.index("trap")] if pat and pat.search(x["ty"])]
+        if dep:
+            why.append("field(s) %s in front of `trap` depend on the type parameters" % dep)
+    if len(slot) != 1:
+        why.append("the handler calls through the slot %d times" % len(slot))
+    # who stores what
+    stored, writers = set(), set()
+    for body in f.bodies:
+        if body.kind == "Promoted":
+            continue
+        du = None
+        for blk in body.blocks:
+            for i, s_ in enumerate(blk["stmts"]):
+                if s_["k"] != "assign":
+                    continue
+                if s_["rhs"]["k"] == "agg" and norm(s_["rhs"].get("adt") or "") == CO and "trap" in (s_["rhs"].get("fields") or []):
+                    du = du or DefUse(body)
+                    d = describe_val(body, du, s_["rhs"]["ops"][s_["rhs"]["fields"].index("trap")])
+                    while d and d[0] == "cast":
+                        d = d[2]          # the fn item reified to a pointer
+                    stored.add(norm(d[1]) if d and d[0] == "fn" else repr(d)[:80])
+                    writers.add(body.npath)
+                for e in s_["lhs"].get("proj", []):
+                    if isinstance(e, dict) and e.get("f") == "trap" and norm(e.get("of") or "") == CO:
+                        writers.add(body.npath + " (assignment)")
+    part = None
+    if len(stored) != 1:
+        why.append("the constructors store %s in the slot" % (sorted(stored) or "nothing"))
+    else:
+        nm = next(iter(stored))
+        c = [x for x in f.bodies if x.npath == nm and x.kind != "Promoted"]
+        part = c[0] if c else None
+        if part is None or not nm.startswith(CO + "::"):
+            why.append("the slot holds %s, which is not a function of the coroutine type itself" % nm)
+            part = None
+    if any("(assignment)" in w for w in writers):
+        why.append("the slot is reassigned after construction by %s" % sorted(w for w in writers if "(assignment)" in w))
+    if why:
+        run.fail(rid, key, h.loc(), "; ".join(why))
+    else:
+        run.ok(rid, key, {"per_type_part": part.npath, "stored_by": sorted(writers)})
+    return part
+
+
 def trap_rule(run, f, rid_msg, rid_install):
     run.rule(rid_msg, "the fault message is 'invalid memory reference' iff the faulting stack pointer is inside a stack segment of the coroutine, else 'stack overflow'", floor=3, template="T6/T5")
     run.rule(rid_install, "the trap handler is installed before the coroutine runs, for SIGSEGV and SIGBUS, on the alternate stack, and only redirects when a coroutine is current", floor=3, template="T3/T2")
-    b = need(run, rid_msg, f, CO + "::trap_handler")
+    h = need(run, rid_msg, f, CO + "::trap_handler")
+    b = None
+    if h is not None:
+        # The handler is installed once per process, as the instance of whichever coroutine type is resumed first, and
+        # then serves faults of coroutines of EVERY type.  Whatever depends on the type parameters (the layout behind
+        # stack_ptr_in_bounds, the Result<Return, &str> the redirect produces) therefore lives in a per-type part that the
+        # handler reaches through the faulting coroutine's own `trap` slot.  `b` is the body that consults
+        # stack_ptr_in_bounds: that part, or -- in a tree without the slot -- the handler itself.
+        hcfg = Cfg(h)
+        hdu = DefUse(h)
+        cur = find_calls(h, callee_is(CO + "::current"))
+        slot = [(x, t) for (x, t) in h.calls() if t.get("callee") is None and t.get("fnptr") is not None and field_chain(h, hdu, t["fnptr"])[-1:] == ["trap"]]
+        _type_independent(run, rid_install, f, h)
+        if slot:
+            b = _slot_part(run, rid_install, f, h, hdu, slot)
+        else:
+            b = h
     if b is not None:
         cfg = Cfg(b)
         du = DefUse(b)
         ib = find_calls(b, callee_is(CO + "::stack_ptr_in_bounds"))
-        cur = find_calls(b, callee_is(CO + "::current"))
         st = find_calls(b, callee_ends("::setup_trap_handler"))
         why = []
         if len(ib) != 1:
             why.append("stack_ptr_in_bounds is not consulted exactly once")
         else:
-            sp = repr(describe_val(b, du, ib[0][1]["args"][1]))
+            if b is h:
+                sp = repr(describe_val(b, du, ib[0][1]["args"][1]))
+            else:
+                # the per-type part tests its own address argument, on its own coroutine argument; the handler passes the
+                # context's stack-pointer register and the current coroutine
+                sl_ = backward(b, ib[0][1]["args"][1], du, at=(ib[0][0], "term"), through_calls="none")
+                rc_ = backward(b, ib[0][1]["args"][0], du, at=(ib[0][0], "term"))
+                if {p_ for p_ in sl_.params} != {2} or sl_.binops() or {p_ for p_ in rc_.params} != {1}:
+                    why.append("the per-type part must test the address it is given, on the coroutine it is given")
+                sp = repr(describe_val(h, hdu, slot[0][1]["args"][1]))
+                who = backward(h, slot[0][1]["args"][0], hdu, at=(slot[0][0], "term"))
+                if not cur or not any(x == cur[0][0] for (x, _t) in who.calls):
+                    why.append("the coroutine handed to the per-type part is not the thread's current coroutine")
             if "gregs" not in sp or "'15'" not in sp:
                 why.append("the tested address is not read from the context's stack-pointer register (%s)" % sp[:120])
             # closure captures the boolean; messages
@@ -631,14 +758,20 @@ def trap_rule(run, f, rid_msg, rid_install):
                             sl = backward(b, o, du, at=(blk["id"], i), through_calls="none")
                             if not any(x == ib[0][0] for (x, _t) in sl.calls):
                                 why.append("the message closure does not capture the result of stack_ptr_in_bounds")
-        if not cur or not st or not all(any(cfg.dominates(variant_arms(b, cfg, du, c[1]["dest"]["l"], cfg.after(c[0]))[0].get("Some", -1), s[0]) for c in cur if variant_arms(b, cfg, du, c[1]["dest"]["l"], cfg.after(c[0]))) for s in st):
+        red = st if b is h else slot      # what redirects, seen from the handler
+        if not cur or not st or not red or not all(any(hcfg.dominates(variant_arms(h, hcfg, hdu, c[1]["dest"]["l"], hcfg.after(c[0]))[0].get("Some", -1), s[0]) for c in cur if variant_arms(h, hcfg, hdu, c[1]["dest"]["l"], hcfg.after(c[0]))) for s in red):
             why.append("the context is rewritten although no coroutine is current")
+        if b is not h and st:
+            rc_ = backward(b, st[0][1]["args"][0], du, at=(st[0][0], "term"))
+            if {p_ for p_ in rc_.params} != {1} or "inner" not in rc_.fields:
+                why.append("the redirect is not set up on the given coroutine's own inner context")
         if why:
             run.fail(rid_msg, CO + "::trap_handler/message", b.loc(), "; ".join(why))
         else:
             run.ok(rid_msg, CO + "::trap_handler/message", "in_bounds(sp) -> invalid memory reference, else stack overflow; redirect only with a current coroutine")
         # same register is written back
         wr = set()
+        b = h
         for blk in b.blocks:
             for s in blk["stmts"]:
                 if s["k"] == "assign" and s["lhs"]["proj"] and "gregs" in repr(s["lhs"]):
